@@ -26,6 +26,7 @@ type c04Sym struct {
 	qos  byte
 	id   uint16
 	dup  bool
+	nopl bool // empty payload (the message is identified by its topic)
 }
 
 func (s c04Sym) String() string {
@@ -36,8 +37,11 @@ func (s c04Sym) String() string {
 	if s.dup {
 		d = ",dup"
 	}
+	if s.nopl {
+		d += ",empty"
+	}
 	if s.qos == 0 {
-		return "PUB(q0)"
+		return "PUB(q0" + d + ")"
 	}
 	return fmt.Sprintf("PUB(q%d,id%d%s)", s.qos, s.id, d)
 }
@@ -54,6 +58,8 @@ func c04Alphabet() []c04Sym {
 	for _, id := range []uint16{1, 2, 3} {
 		a = append(a, c04Sym{kind: 'R', id: id})
 	}
+	// zero-length payloads: the topic string then ends exactly at the end of the packet body (QoS 0)
+	a = append(a, c04Sym{kind: 'P', qos: 0, nopl: true}, c04Sym{kind: 'P', qos: 1, id: 1, nopl: true})
 	return a
 }
 
@@ -244,10 +250,14 @@ func runC04(c *Ctx) {
 						}
 						cli := &mqtt.BaseClient{Transport: s.Conn}
 						h := mqtt.HandlerFunc(func(msg *mqtt.Message) {
-							tl = append(tl, "H+"+string(msg.Payload))
-							vrt.Event(unsafe.Pointer(&tl), vrt.HashBytes(msg.Payload))
+							tag := strings.TrimPrefix(msg.Topic, "t/")
+							if len(msg.Payload) > 0 && string(msg.Payload) != tag {
+								tag += "[payload " + string(msg.Payload) + "]"
+							}
+							tl = append(tl, "H+"+tag)
+							vrt.Event(unsafe.Pointer(&tl), vrt.HashString(tag))
 							vrt.Yield("in handler")
-							tl = append(tl, "H-"+string(msg.Payload))
+							tl = append(tl, "H-"+tag)
 							vrt.Event(unsafe.Pointer(&tl), 1)
 						})
 						if m.handler == 0 {
@@ -287,7 +297,11 @@ func runC04(c *Ctx) {
 							if sym.kind == 'R' {
 								pkt = env.EncAck(env.PUBREL, sym.id)
 							} else {
-								pkt = env.EncPublish("t/"+tag, []byte(tag), sym.qos, sym.id, sym.dup, false)
+								pl := []byte(tag)
+								if sym.nopl {
+									pl = nil
+								}
+								pkt = env.EncPublish("t/"+tag, pl, sym.qos, sym.id, sym.dup, false)
 							}
 							if m.burst {
 								burst = append(burst, pkt...)
